@@ -74,6 +74,28 @@ def _check_proba(P, n, K, add, what, atol=1e-8):
     return True
 
 
+def _delegation_judgeable(clf, Q):
+    """predict delegated to a wrapped estimator: the decision can be judged against the reported probabilities unless a
+    wrapper in the chain is in its documented not-fitted fall-back (predictions are then DRAWN from the label distribution)
+    or the third-party estimator at the bottom returns non-finite probabilities itself (its own failure; the wrapper
+    replaces them in predict_proba only)."""
+    cur = clf
+    for _ in range(4):
+        if getattr(cur, "is_fitted_", True) is False:
+            return False
+        nxt = getattr(cur, "estimator_", None)
+        if nxt is None:
+            break
+        cur = nxt
+    if not hasattr(cur, "missing_label") and hasattr(cur, "predict_proba"):
+        try:
+            if not np.isfinite(np.asarray(cur.predict_proba(Q), dtype=float)).all():
+                return False
+        except Exception:
+            return False
+    return True
+
+
 def run_case(desc):
     steps.install()
     rng = gen.rng_for("c11", desc["seed"])
@@ -114,6 +136,8 @@ def run_case(desc):
     cm = None
     if desc["cost"]:
         cm = np.round(rng.rand(K, K) * 4, 1)
+        if rng.rand() < 0.5:          # strongly asymmetric costs: the cheapest decision is often not the most probable class
+            cm[rng.randint(K)] *= 10.0
         np.fill_diagonal(cm, 0.0)
     sw = None
     if desc["weights"]:
@@ -229,8 +253,12 @@ def run_case(desc):
                 members = [p in cl for p in pred.tolist()]
                 if not all(members):
                     add("predict-not-a-class", "%s: predictions %r, classes_ %r" % (what, pred.tolist()[:8], cl))
-                elif rec and rec[-1][0] == len(Q) and rec[-1][1].shape == (len(Q), K):
-                    Pin = rec[-1][1]
+                elif (rec and rec[-1][0] == len(Q) and rec[-1][1].shape == (len(Q), K)) or (not rec and ok and _delegation_judgeable(clf, Q)):
+                    # predict may delegate to a wrapped classifier instead of calling its own predict_proba: the decision is
+                    # then judged against the probabilities the classifier itself reports for the same points
+                    Pin = rec[-1][1] if rec else np.asarray(P, dtype=float)
+                    if not rec:
+                        stats["decision_checked_against_reported_proba"] = stats.get("decision_checked_against_reported_proba", 0) + 1
                     # own reconstruction of the costs in classes_ (sorted) order from what the user declared - the
                     # library's cost_matrix_ is deliberately not trusted
                     C = (1.0 - np.eye(K)) if cm is None else np.asarray(cm, dtype=float)
